@@ -45,6 +45,10 @@ def gen_fn(rng):
         k = rng.choice(["linreg", "converter", "pswitch", "rloss"])
         if k == "linreg":
             a = {"vo": gen.sd(rng, 1.2, 2.4), "vdrop": 0.1}
+            if rng.random() < 0.25:
+                # brown-out: a regulator whose drop-out exceeds every supply of this generator (<= 24 V): powered, switched on, and at
+                # exactly 0 V - as a mux input it is dead (not live), although nothing above it is off
+                a = {"vo": gen.sd(rng, 31, 60), "vdrop": gen.sd(rng, 25, 30)}
         elif k == "converter":
             a = {"vo": gen.sd(rng, 1.5, 12), "eff": gen.ud(rng, 0.7, 0.95)}
         elif k == "pswitch":
